@@ -8,10 +8,12 @@ spec->impl: MC_C03 enumerates the item under test: kind (struct, newtype struct,
 impl->spec: the definitions found in each output (names, listed members in order, fields of each struct variant,
             leftovers) are one event judged by Trace_C03; random multi-item programs extend the enumeration.
 """
+import os
+
 from .. import common, observe
 from ..common import ToolError
 
-NEEDS = ["driver"]
+NEEDS = ["driver", "cli"]
 ANN = {"none": "", "plain": "#[typeshare]\n", "path": "#[typeshare::typeshare]\n", "args": '#[typeshare(swift = "Equatable")]\n'}
 SKIP = {
     "serde_skip": ["#[serde(skip)]"], "typeshare_skip": ["#[typeshare(skip)]"], "serde_after_word": ["#[serde(default, skip)]"],
@@ -193,6 +195,73 @@ def run_mode(chk, programs, results, srcs, events, meta):
             meta.append((lang, case, items, src))
 
 
+PLACE_FILE = {"second_root": ("root2", "cb/src/b.rs"), "third_root": ("root3", "cb/src/b.rs"), "deep6": ("root1", "cb/src/a/b/c/d/e/f/b.rs"),
+              "dir_tests": ("root1", "cb/src/tests/b.rs"), "mod_rs": ("root1", "cb/src/inner/mod.rs"), "main_rs": ("root1", "cb/src/main.rs"),
+              "build_rs": ("root1", "cb/src/build.rs"), "space_name": ("root1", "cb/src/b file.rs"), "dotted_name": ("root1", "cb/src/types.v2.rs"),
+              "nonascii_dir": ("root1", "cb/src/mod\u00e8les/b.rs"), "upper_dir": ("root1", "cb/src/SRC_Types/b.rs"), "no_src": ("root1", "cb/b.rs")}
+
+
+def places(chk):
+    """MC_C03_places: the real binary finds annotated items in every ordinary place of every directory argument."""
+    import concurrent.futures as cf
+    from .. import cli
+    res = common.run_tlc("MC_C03_places", cfg="MC_C03_places", workers=2, timeout=300)
+    chk.add_tlc("MC_C03_places", res)
+    if not res.replays:
+        raise ToolError("MC_C03_places produced no cases")
+    work = common.scratch("c03p")
+    st = lambda n: {"name": n, "kind": "struct", "annotated": True, "members": [{"name": "alpha", "skipped": False, "payload": "unit", "fields": []}]}
+    items = [st("First"), st("Second"), st("Third")]
+    args_for = {"typescript": [], "kotlin": ["--java-package", "com.x"]}
+
+    def one(a):
+        k, c = a
+        d = os.path.join(work, f"p{k}")
+        root, rel = PLACE_FILE[c["place"]]
+        files = {"root1/ca/src/lib.rs": "#[typeshare]\npub struct First { pub alpha: u32 }\n", "root1/cc/src/lib.rs": "#[typeshare]\npub struct Third { pub alpha: u32 }\n",
+                 f"{root}/{rel}": "#[typeshare]\npub struct Second { pub alpha: u32 }\n"}
+        if root == "root3":
+            files["root2/cz/src/lib.rs"] = "pub struct NotShared;\n"
+        cli.make_tree(d, files)
+        roots = sorted({f.split("/")[0] for f in files})
+        out = os.path.join(d, "out")
+        os.makedirs(out)
+        dest = ["-o", os.path.join(out, "out." + common.EXT[c["lang"]])] if c["mode"] == "single" else ["-d", out]
+        r = cli.run_cli(["-l", c["lang"]] + args_for[c["lang"]] + dest + [os.path.join(d, x) for x in roots], timeout=20)
+        texts = [open(os.path.join(out, f)).read() for f in sorted(os.listdir(out))] if r["exit"] == "ok" else []
+        return c, r, texts
+
+    events, meta = [], []
+    with cf.ThreadPoolExecutor(max_workers=8) as ex:
+        for c, r, texts in ex.map(one, list(enumerate(res.replays))):
+            if r["exit"] in ("panic", "timeout", "signal"):
+                continue          # C07
+            defs = []
+            if r["exit"] == "ok":
+                for t in texts:
+                    try:
+                        o = observe.extract(c["lang"], t)
+                    except Exception:  # noqa
+                        continue
+                    defs += [{"name": d["name"], "members": [m["key"] for m in d.get("members", [])], "variant_fields": []} for d in o["defs"]]
+            events.append({"items": items, "defs": defs, "extras": []})
+            meta.append((c, r))
+    ok, matched, tres = common.trace_validate("Trace_C03", events, timeout=600)
+    chk.add_tlc("Trace_C03[places]", tres)
+    if matched != len(events):
+        raise ToolError(f"Trace_C03 consumed {matched}/{len(events)}")
+    for b in tres.bad:
+        c, r = meta[b - 1]
+        names = [d["name"] for d in events[b - 1]["defs"]]
+        kind = "run-failed" if r["exit"] != "ok" else "item-not-found" if "Second" not in names else "other-items-lost-or-duplicated"
+        chk.mismatch(f"C03/{c['lang']}+cli/{c['mode']}/place={c['place']}/{kind}", f"{c['lang']} {c['mode']}: annotated items First, Second ({c['place']}), Third -> "
+                     f"definitions {names} (exit {r['exit']}: {r['stderr'][-160:].strip()})", {"place": c}, "one definition per annotated item", names)
+    chk.traces += len(events) - len(tres.bad)
+    for (c, r) in meta:
+        chk.judged(("place", c["place"], c["mode"], c["lang"]))
+    chk.extra["places_runs"] = len(events)
+
+
 def run(chk):
     thorough = chk.tier == "thorough"
     chk.rule = ("spec->impl: item kind x annotation spelling x nesting x skipped-member set x skip spelling (MC_C03) with an annotated neighbour and an "
@@ -251,10 +320,15 @@ def run(chk):
     chk.extra["trace_events"] = len(events)
     for e, m in zip(events, meta):
         chk.judged((m[0], str(m[1]), str([(it["name"], it["kind"], it["annotated"]) for it in m[2]])))
+    places(chk)
 
 
 def replay(chk, rec):
     c = rec["case"]
+    if "place" in c:
+        places(chk)
+        chk.mismatches = {k: v for k, v in chk.mismatches.items() if k == rec["signature"]}
+        return
     events, meta = run_programs(chk, [(c["case"], c["items"])])
     keep = [(e, m) for e, m in zip(events, meta) if m[0] == c["lang"]]
     if keep:
